@@ -393,6 +393,19 @@ class ClassRef:
         return self
 
 
+def _is_generator(fdef):
+    """does the function's own body (not a nested def / lambda) contain yield?"""
+    stack = list(fdef.body)
+    while stack:
+        n = stack.pop()
+        if isinstance(n, (ast.Yield, ast.YieldFrom)):
+            return True
+        if isinstance(n, (ast.FunctionDef, ast.AsyncFunctionDef, ast.Lambda, ast.ClassDef)):
+            continue
+        stack.extend(ast.iter_child_nodes(n))
+    return False
+
+
 def _type_of(v):
     """type(x): the class of a folded object (comparable with == / is-by-value), the Python type of a plain value"""
     if isinstance(v, Stub) and v.cls is not None:
@@ -424,6 +437,60 @@ class _Continue(Exception):
 class _Return(Exception):
     def __init__(self, value):
         self.value = value
+
+
+class _LazyGen:
+    """A folded GENERATOR FUNCTION call.  The body runs in a helper thread used as a coroutine: strictly one of
+    {consumer, body} runs at a time (hand-over by two semaphores), so the body's effects interleave with the consumer's
+    exactly as Python's lazy evaluation does.  The body starts at the first next()."""
+
+    def __init__(self, folder, body, env, label):
+        import threading
+        self.folder, self.body, self.env, self.label = folder, body, env, label
+        self._to_body, self._to_consumer = threading.Semaphore(0), threading.Semaphore(0)
+        self._thread = None
+        self._item = self._error = None
+        self._done = False
+        env.generator = self
+
+    def __iter__(self):
+        return self
+
+    def _run(self):
+        self._to_body.acquire()
+        try:
+            self.folder._exec_block(self.body, self.env)
+        except _Return:
+            pass
+        except BaseException as ex:        # noqa: BLE001 - handed to the consumer
+            self._error = ex
+        self._done = True
+        self._to_consumer.release()
+
+    def __next__(self):
+        import threading
+        if self._done:
+            raise StopIteration
+        if self._thread is None:
+            self._thread = threading.Thread(target=self._run, daemon=True)
+            self._thread.start()
+        depth = getattr(self.folder, "_depth", 0)
+        self._to_body.release()
+        self._to_consumer.acquire()
+        self.folder._depth = depth
+        if self._error is not None:
+            err, self._error = self._error, None
+            raise err
+        if self._done:
+            raise StopIteration
+        return self._item
+
+    def _yield(self, value):
+        """called from the body thread"""
+        self._item = value
+        self._to_consumer.release()
+        self._to_body.acquire()
+        return None
 
 
 class Folder:
@@ -544,7 +611,8 @@ class Folder:
             self._exec_block(st.body if self._eval(st.test, e) else st.orelse, e)
         elif isinstance(st, ast.For):
             broke = False
-            for item in list(self._eval(st.iter, e)):
+            it_ = self._eval(st.iter, e)
+            for item in (it_ if isinstance(it_, (_LazyGen, list)) else list(it_)):
                 self._assign(st.target, item, e)
                 try:
                     self._exec_block(st.body, e)
@@ -748,6 +816,18 @@ class Folder:
                     return False
                 l = r
             return True
+        if isinstance(x, (ast.Yield, ast.YieldFrom)):
+            g, s_ = None, e
+            while s_ is not None and g is None:
+                g = getattr(s_, "generator", None)
+                s_ = s_.parent
+            if g is None:
+                raise AnalysisError("constfold: yield outside a folded generator function")
+            if isinstance(x, ast.YieldFrom):
+                for item in self._eval(x.value, e):
+                    g._yield(item)
+                return None
+            return g._yield(self._eval(x.value, e) if x.value is not None else None)
         if isinstance(x, ast.IfExp):
             return self._eval(x.body if self._eval(x.test, e) else x.orelse, e)
         if isinstance(x, ast.Subscript):
@@ -1225,6 +1305,8 @@ class Folder:
                 ee.set(p_, a_)
             for k_, v_ in kw.items():
                 ee.set(k_, v_)
+            if _is_generator(fdef):
+                return _LazyGen(self, fdef.body, ee, fdef.name)
             try:
                 self._exec_block(fdef.body, ee)
             except _Return as r:
@@ -1277,6 +1359,8 @@ class Folder:
             ee = env.child()
             for p_, a_ in zip([a.arg for a in fdef.args.posonlyargs + fdef.args.args], args):
                 ee.set(p_, a_)
+            if _is_generator(fdef):
+                return _LazyGen(self, fdef.body, ee, fdef.name)
             try:
                 self._exec_block(fdef.body, ee)
             except _Return as r:
@@ -1337,6 +1421,9 @@ class Folder:
                 raise AnalysisError(f"constfold: missing keyword-only argument {k_} for {fn.key}")
         if a.kwarg is not None:
             local[a.kwarg.arg] = {k_: v_ for k_, v_ in kw.items() if k_ not in params and k_ not in kwonly}
+        if _is_generator(fn.node):
+            Stub._active = self
+            return _LazyGen(self, fn.node.body, menv, fn.key)
         self._depth = getattr(self, "_depth", 0) + 1
         Stub._active = self
         if self._depth == 1:
